@@ -229,7 +229,14 @@ CLAIMED["C19"] = {
             "The weight is carried by the tie to the code: an sqlite3 statement trace on FeatureDB.conn during random "
             "sequences of read-style calls (look-up, iteration, children, parents, region, interfeatures, "
             "create_introns, create_splice_sites, merge, children_bp, bed12, counts) must show no write statement, and "
-            "the content after reopening must be unchanged; (old, new) pairs for both force settings.",
+            "the content after reopening must be unchanged; (old, new) pairs for both force settings, database file names "
+            "with several extensions, inputs with auto-numbered features and directives, all calls of a pair in one "
+            "process, the forced result compared with a fresh import of the new input alone; every pair is also run "
+            "through the World model (protocol command `world`) and the files left on disk compared with the model's. "
+            "At the level of the generated SQL (GffModel/Sql.lean): every statement the read-style builders produce - "
+            "make_query for all_features/features_of_type, _relation, region, the count and distinct queries, for all "
+            "arguments - is a single SELECT statement (reads_are_selects, render_is_select), and the executed texts are "
+            "compared with the model's byte for byte (C11).",
     "note": "Trusted: Lean kernel + standard axioms; set_trace_callback reports every statement; 'content' = what a "
             "fresh FeatureDB observes (pragmas/header bytes are not content). interfeatures/merge/bed12 are classified "
             "as reads by the trace, not by the World model.",
@@ -245,8 +252,11 @@ CLAIMED["C20"] = {
             "directory equals the initial one (cleanup), no deadlock (progress), and readers never change the file; a "
             "negative control shows the freshness assumption is exactly what is needed. Tie to the code: trace "
             "conformance of one real GFF3 and one real GTF import under an audit hook (mkstemp -> open w -> open r -> "
-            "unlink of one uniquely named file, nothing left), real runs with 2..2xcores processes, staggered starts, "
-            "mixed inputs, shared TMPDIR (each database equals the solitary run, directory empty), concurrent readers.",
+            "unlink of one uniquely named file, nothing left), the recorded traces and every forced interleaving replayed "
+            "through Conc.step (protocol command `conc`: directory and held names after every step), real runs with "
+            "2..2xcores processes, staggered starts, mixed inputs incl. GTF with inference disabled, shared TMPDIR (each "
+            "database equals the solitary run, directory empty), forced interleavings (one import parked between writing "
+            "and re-reading its intermediate file while another runs to completion), concurrent readers.",
     "note": "Trusted: Lean kernel + standard axioms; OS scheduling, sqlite file locking and tempfile uniqueness are "
             "runtime behaviour the model cannot exhibit (sampled only). Known finding D15: the from_string form leaks its "
             "temp copy.",
